@@ -96,6 +96,9 @@ func decodeFormat4(in []byte, code2rune func(c int) rune) (Subtable, error) {
 
 // Lookup implements the Subtable interface.
 func (cmap Format4) Lookup(r rune) glyph.ID {
+	if r < 0 || r > 0xFFFF {
+		return 0
+	}
 	return cmap[uint16(r)]
 }
 
